@@ -10,6 +10,10 @@ use crate::chunker;
 use std::io::{self, Write};
 use std::mem;
 
+/// (A lower bound of) the capacity of the output buffer `flate2::write::GzEncoder` drains into
+/// the underlying writer.
+const FLATE2_BUF_SIZE: u64 = 32 * 1024;
+
 /// A `std::io::Write` implementation that makes a chunked hyper response body stream.
 /// Automatically applies `gzip` content encoding if requested by the client.
 ///
@@ -105,7 +109,19 @@ where
         let r = match self.0 {
             Inner::Dead => return Err(io::Error::new(io::ErrorKind::BrokenPipe, "body is dead")),
             Inner::Raw(ref mut w) => w.flush(),
-            Inner::Gzipped(ref mut w) => w.flush(),
+            Inner::Gzipped(ref mut w) => loop {
+                // flate2 passes the sync flush request to the compressor only once, and the
+                // compressor drops it if its output does not fit into flate2's buffer (or
+                // output of an earlier write is still pending). Then the buffer has been
+                // written out in full at least once; ask again until that isn't so.
+                let before = w.get_ref().written();
+                if let Err(e) = w.flush() {
+                    break Err(e);
+                }
+                if w.get_ref().written() - before < FLATE2_BUF_SIZE {
+                    break Ok(());
+                }
+            },
         };
         if r.is_err() {
             self.0 = Inner::Dead;
